@@ -262,6 +262,24 @@ func cmdCheck(args []string) int {
 		os.WriteFile(filepath.Join(verifDir(), "contracts", "expected_discharged.json"), data, 0o644)
 	}
 
+	// slowest obligations (margin against the per-obligation time limit)
+	var slow []map[string]interface{}
+	{
+		var all []*OblResult
+		for _, fr := range runs {
+			all = append(all, fr.Results...)
+		}
+		sort.Slice(all, func(i, j int) bool { return all[i].Seconds > all[j].Seconds })
+		for i, r := range all {
+			if i >= 5 || r.Seconds < 1.0 {
+				break
+			}
+			slow = append(slow, map[string]interface{}{"obligation": r.Obl.Name, "seconds": round3(r.Seconds), "solver": r.Solver, "status": r.Status})
+			if *verbose || r.Seconds > timeout.Seconds()/2 {
+				fmt.Fprintf(os.Stderr, "slow: %s %.1fs (%s, %s)\n", r.Obl.Name, r.Seconds, r.Solver, r.Status)
+			}
+		}
+	}
 	// evidence
 	var funcs []map[string]interface{}
 	var assumptions []string
@@ -339,6 +357,7 @@ func cmdCheck(args []string) int {
 		"contract_files":    w.Specs.Files,
 		"mirror_fallback":   w.UsedMirror,
 		"missing_expected":  missing,
+		"slowest":           slow,
 	}
 	if len(samples) == 0 {
 		cov["samples"] = []map[string]interface{}{{"note": "no solver-discharged obligation in this run"}}
